@@ -336,7 +336,7 @@ def check_C05(ctx):
         cases, _ = ctx.tlc_mc("MC_C05", mc_cfg({"L": L, "Alpha": alpha}, inv, props=["Progress"]), timeout=3000, heap="16g")
         cases = [c for c in cases if c["id"] not in seen]
         seen.update(c["id"] for c in cases)
-        ctx.validate(ctx.run_cases(cases), module="TraceC05", nontrivial_key=lambda o: o["text"], chunk=20000)
+        ctx.validate(ctx.run_cases(cases), module="TraceC05", nontrivial_key=lambda o: o["text"], chunk=8000, timeout=3000)
     # pass-through of raw / comment bodies and string values, beyond the alphabet: seeded
     gen = ctx.gen("passthrough", 400 if ctx.quick else 20000)
     ctx.validate(ctx.run_cases(gen))
